@@ -373,6 +373,13 @@ public:
 		identifier::operator =(id);
 		return *this;
 	}
+	/* memberwise assignment would overwrite inline name data with foreign trailing storage */
+	inline item &operator =(const item &from)
+	{
+		reference<T>::operator =(from);
+		identifier::operator =(from);
+		return *this;
+	}
 protected:
 	char _post[32 - sizeof(identifier) - sizeof(reference<T>)];
 };
